@@ -218,6 +218,11 @@ std::vector<Value> FilterUtility::GetFilterTargets(const QueryDescription& qd, c
 	ScriptFrame permissionFrame(false, permissionFrameNS);
 
 	for (const String& type : qd.Types) {
+		/* EvaluateFilter() only adds variables to the frame's namespace. Start every type with an empty one, so
+		 * that e.g. `service` is not still bound to a previously addressed service while the permission filter
+		 * is evaluated for hosts. */
+		permissionFrame.Self = new Namespace();
+
 		String attr = type;
 		boost::algorithm::to_lower(attr);
 
